@@ -11,12 +11,12 @@ callbacks stop right after the first Break, Continue proceeds, a key is handed o
 iterator asked for it, and a path that denotes no collection produces no callback.
 
 Hypotheses beyond `NodeWF`/`WT`: `LoopKeysOK` — on the keys of the looped map whose text the script asks
-for (and only those): not a `byte` key type, not a nil pointer key, strconv round trip of the oracle, float32
-keys representable. Nothing is assumed for slices, nor for maps whose keys are not asked for.
+for (and only those): not a `byte` key type, strconv round trip of the oracle, float32 keys representable.
+Nil pointer keys are covered (the repaired emitter hands over an empty key text instead of evaluating `*k`). Nothing is assumed for slices, nor for maps whose keys are not asked for.
 `RootOK`/`EmitOK` are not needed.
 
-The model of the current tree differs on `loop-root-map-skipped` (`repo_not_correct`) and `nil-root-panics`
-(`repo_nil_root_panics`).
+The model of the current tree differs on `loop-root-map-skipped` (`repo_not_correct`), `loop-nil-key-panics`
+(`repo_not_correct_nil_key`) and `nil-root-panics` (`repo_nil_root_panics`).
 -/
 import InspectorModel.Proofs.C09
 namespace Inspector.C09
@@ -160,16 +160,49 @@ theorem repo_nil_root_panics :
     (loopM GenCfg.repo exScriptAll exFt exRootSlice .nilPtr (.slice true [] 0) []).fin = .panic := by
   decide
 
-/-- The key hypothesis is needed — a nil pointer key whose text is asked for: the emitted `*k` panics even
-in the repaired model, and `LoopKeysOK` is what excludes it. -/
-def exPtrKeyMap : Node :=
-  .map { typn := "PM" } (.basic { typn := "string", typu := "string", ptr := true }) (.basic { typn := "int", typu := "int" })
-example : NodeWF exPtrKeyMap = true ∧ WT exPtrKeyMap (.map false [.nilptr] [.int 1]) = true ∧
-    LoopKeysOK exOracle exFt exScriptAll exPtrKeyMap (.map false [.nilptr] [.int 1]) [] = false ∧
-    (loopM GenCfg.fixed exScriptAll exFt exPtrKeyMap .ptr (.map false [.nilptr] [.int 1]) []).fin = .panic := by
+/-- `type NK struct { N map[*string]int }` holding `{nil: 1, &"k": 2}`. -/
+def exNilKeyNode : Node :=
+  .struct { typn := "NK" } [
+    .map { typn := "map[*string]int", name := "N" }
+      (.basic { typn := "string", typu := "string", ptr := true }) (.basic { typn := "int", typu := "int" })]
+def exNilKeyVal : Val := .struct [.map false [.nilptr, .ptr (.str (strBytes "k"))] [.int 1, .int 2]]
+
+/-- All hypotheses of `loop_correct` hold for it: `LoopKeysOK` does not exclude nil pointer keys. -/
+example : NodeWF exNilKeyNode = true ∧ WT exNilKeyNode exNilKeyVal = true ∧ RootOK exNilKeyNode = true ∧
+    LoopKeysOK exOracle exFt exScriptAll exNilKeyNode exNilKeyVal [seg "N"] = true := by decide
+
+/-- Known finding `loop-nil-key-panics`: with the key asked for, the emitted key rendering of the current
+tree dereferences the nil pointer key (`*k`): Loop panics, the property demands one callback per entry. -/
+theorem repo_not_correct_nil_key :
+    (loopM GenCfg.repo exScriptAll exFt exNilKeyNode .ptr exNilKeyVal [seg "N"]).fin = .panic ∧
+    loopAccepts exScriptAll exNilKeyNode exNilKeyVal [seg "N"]
+      ((loopM GenCfg.repo exScriptAll exFt exNilKeyNode .ptr exNilKeyVal [seg "N"]).groups.map (obsOf exOracle))
+      (loopM GenCfg.repo exScriptAll exFt exNilKeyNode .ptr exNilKeyVal [seg "N"]).fin = false := by
   decide
-/-- … and it asks nothing when the iterator does not want keys. -/
-example : LoopKeysOK exOracle exFt { wantKey := [false], ctl := [0] } exPtrKeyMap (.map false [.nilptr] [.int 1]) [] = true := by
+
+/-- The repaired emitter visits both entries (empty key text for the nil key) and is accepted — an
+instance of `loop_correct`. -/
+example :
+    (loopM GenCfg.fixed exScriptAll exFt exNilKeyNode .ptr exNilKeyVal [seg "N"]).groups.map (·.key) =
+      [some [], some (strBytes "k")] ∧
+    loopAccepts exScriptAll exNilKeyNode exNilKeyVal [seg "N"]
+      ((loopM GenCfg.fixed exScriptAll exFt exNilKeyNode .ptr exNilKeyVal [seg "N"]).groups.map (obsOf exOracle))
+      (loopM GenCfg.fixed exScriptAll exFt exNilKeyNode .ptr exNilKeyVal [seg "N"]).fin = true := by
+  decide
+
+/-- What is left of the key hypothesis is needed — a float32-typed key that is no float32 is well-typed
+for `WT`, the property reads the key text back through `float32(…)`, and `LoopKeysOK` is what excludes it;
+it asks nothing when the iterator does not want keys. -/
+def exF32Map : Node :=
+  .map { typn := "FM" } (.basic { typn := "float32", typu := "float32" }) (.basic { typn := "int", typu := "int" })
+def exF32Val : Val := .map false [.float 123456789012345] [.int 1]
+def exF32Oracle (t : Bytes) : Seg := { text := t, pf := .ok 123456789012345 }
+example : NodeWF exF32Map = true ∧ WT exF32Map exF32Val = true ∧
+    LoopKeysOK exF32Oracle exFt exScriptAll exF32Map exF32Val [] = false ∧
+    loopAccepts exScriptAll exF32Map exF32Val []
+      ((loopM GenCfg.fixed exScriptAll exFt exF32Map .ptr exF32Val []).groups.map (obsOf exF32Oracle))
+      (loopM GenCfg.fixed exScriptAll exFt exF32Map .ptr exF32Val []).fin = false ∧
+    LoopKeysOK exF32Oracle exFt { wantKey := [false], ctl := [0] } exF32Map exF32Val [] = true := by
   decide
 end NonVacuity
 
